@@ -352,6 +352,20 @@ def _floats_within(d, t):
     return True
 
 
+def _partial_struct(d, t):
+    """the tagged value t contains a struct value that lacks one of its (optional) members"""
+    k = d['t']
+    if k == 'array' and t[0] in ('tuple', 'list'):
+        return any(_partial_struct(d['elem'], x) for x in t[1])
+    if k == 'tuple' and t[0] in ('tuple', 'list'):
+        return any(_partial_struct(dd, x) for dd, x in zip(d['elems'], t[1]))
+    if k == 'struct' and t[0] == 'dict':
+        m = {tuple(G.cps(n)): dd for n, dd in d['members']}
+        present = {tuple(kk) for kk, _ in t[1]}
+        return present != set(m) or any(_partial_struct(m[tuple(kk)], x) for kk, x in t[1] if tuple(kk) in m)
+    return False
+
+
 def oracle(case, obs):
     d = case['d']
     v = obs['v']
@@ -382,8 +396,13 @@ def oracle(case, obs):
             if not equal_values(d, v, r[1], False, why):
                 fail(f'{who}-import-changed', f'importing {obs["json_text"]!r} on the {who}: {why[:1]}')
     # --- text encoding
+    # (not judged for a struct lacking optional members on the NODE side type: validate() accepts and export_value()
+    #  transports such a value, but the node side from_string is __call__, which demands every member for values coming
+    #  from the driver; the text form is offered to users through the client side type, where it is judged)
     text = obs['text']
-    if text[0] != 'ok':
+    if side == 'node' and _partial_struct(d, v):
+        pass
+    elif text[0] != 'ok':
         fail('no-text-form', f'to_string raised {text[1]}')
     else:
         shown = G.from_cps(text[1])
@@ -447,20 +466,9 @@ def _leaves(d, t):
         yield d, t
 
 
-def f_one_tuple(case, obs, f):
-    return (f['class'] in ('text-not-accepted', 'setparam-not-accepted')
-            and any(x['t'] == 'tuple' and len(x['elems']) == 1 for x in _types(case['d'])))
-
-
 def f_negzero(case, obs, f):
     return (f['class'] in ('text-changed', 'setparam-changed')
             and any(dd['t'] in ('float', 'scaled') and x == ['float', '-0'] for dd, x in _leaves(case['d'], obs['v'])))
-
-
-def f_client_string_maxchars(case, obs, f):
-    collapsed = any(x['t'] == 'string' and x['min'] > 0 and x['max'] == UNLIMITED for x in _types(case['d']))
-    return collapsed and (f['class'] in ('client-import-raises',) or
-                          (case['side'] == 'client' and f['class'] in ('text-not-accepted',)))
 
 
 def _scaled_k(dd, x):
@@ -476,9 +484,7 @@ def f_scaled_huge(case, obs, f):
 
 
 FINDING_CLASSIFIERS = {
-    'one-tuple-text': f_one_tuple,
     'float-negzero-text': f_negzero,
-    'client-string-maxchars': f_client_string_maxchars,
     'scaled-huge-grid': f_scaled_huge,
 }
 
@@ -588,7 +594,7 @@ def valid_value(rng, d, client):
         return tuple(valid_value(rng, x, client) for x in d['elems'])
     res = {}
     for n, x in d['members']:
-        if client and n in d['optional'] and rng.random() < 0.5:
+        if n in d['optional'] and rng.random() < (0.5 if client else 0.3):   # also valid on the node (45926fd)
             continue
         res[n] = valid_value(rng, x, client)
     return res
